@@ -128,6 +128,23 @@ type Mem struct {
 	// XSessionBlankCipher is the cipher id used for the blank session that
 	// XSession restores into (SQLite uses 1 = A128GCM).
 	XSessionBlankCipher kex.CipherSuiteID
+
+	// DevmodLog records every SetDevmod call (guarded by mu).
+	DevmodLog []DevmodRec
+}
+
+// DevmodRec is one SetDevmod call.
+type DevmodRec struct {
+	Devmod   serviceinfo.Devmod
+	Modules  []string
+	Complete bool
+}
+
+// DevmodCalls returns a copy of the SetDevmod log.
+func (m *Mem) DevmodCalls() []DevmodRec {
+	m.mu.Lock()
+	defer m.mu.Unlock()
+	return append([]DevmodRec{}, m.DevmodLog...)
 }
 
 // NewMem creates an empty backend.
@@ -425,6 +442,7 @@ func (m *Mem) SetDevmod(ctx context.Context, d serviceinfo.Devmod, modules []str
 	d.Serial = append([]byte{}, d.Serial...)
 	return m.with(ctx, func(s *memSession) error {
 		s.devmod, s.modules, s.devmodComplete, s.haveDevmod = &d, append([]string{}, modules...), complete, true
+		m.DevmodLog = append(m.DevmodLog, DevmodRec{Devmod: d, Modules: append([]string{}, modules...), Complete: complete})
 		return nil
 	})
 }
